@@ -8,7 +8,7 @@ SHRINK_KEYS = ["fixes", "exprs", "terms"]
 RULE = ("random BQM (float64/float32/object), QM, CQM (in-place one-by-one, in-place bulk, copying path) and BinaryPolynomial "
         "models with dyadic coefficients, squared integer terms, constants, variables missing from some expressions; a random "
         "subset of variables is fixed; BQMs are also fixed through the live view of the opposite vartype, labels are sometimes the default range 0..n-1, CQMs carry a discrete constraint half of the time (is_discrete() compared after both paths), and for CQMs the raw index-level state before/after is fed to the "
-        "copy-path / in-place-path models; expressions keep their own (shuffled) variable order, `fixed` is given as dict / list of pairs / generator, nothing or everything may be fixed, QMs also in float32 storage, "
+        "copy-path / in-place-path models; expressions keep their own (shuffled) variable order, `fixed` is given as dict / list of pairs / one-shot generator, zip or list iterator (CQM both paths, BQM on 3 dtypes and through views, QM), nothing or everything may be fixed, QMs also in float32 storage, "
         "the model returned by fix_variables(inplace=False) is edited afterwards to show it shares no state with the receiver, and PolyFixedVariableComposite.sample_poly is run over ExactPolySolver "
         "(every returned row carries the fixed values and has the energy of the ORIGINAL polynomial; all variables fixed / nothing fixed / fixed_variables=None included); a case is non-trivial when the model has at least one term; distinct by canonical JSON of the case")
 TRUSTED = ["model: coq/theories/Model/Poly.v, HPoly.v, ChkC03.v (hand written, tied by this correspondence); code-shaped models Model/FixPy.v (views/quadratic.py loop) and Model/FixCopy.v over Model/Expr.v (constrained_quadratic_model.h fix_variables / fix_variables_expr and the in-place path with shifted indices), run on the raw expression state (_iindices/_ilinear/_iquadratic, varinfo) observed before and compared with the raw state observed after",
